@@ -364,12 +364,16 @@ Section Sem.
           | _ => match accessor m va with Ok r => Ok (r, s) | _ => Stuck end
           end)
     | ESel a f =>
+        match clookup ce (ESel a f) with
+        | Some (CV v) => ret v          (* a compile-time input addressed by its access path, e.g. ye.Value *)
+        | _ =>
         bind (eval ce le a) (fun va => fun s =>
           match va with
           | VEnv p => match field_of_env f s p with Ok v => Ok (v, s) | _ => Stuck end
           | VNilEnv => Panic PNil
           | _ => Stuck
           end)
+        end
     | EIndex a i =>
         bind (eval ce le a) (fun va => bind (eval ce le i) (fun vi =>
           match va, int_of vi with
